@@ -107,32 +107,37 @@ def rel (op : RelOp) (l r : Val) : Val :=
 
 /-! ### sort (stable merge sort with a fallible comparison, as `default_funcs/sort.rs`) -/
 
-/-- Merge two sorted runs; `none` when a pair has no order. Fuel = total length. -/
-def mergeRuns : Nat → List Val → List Val → Option (List Val)
-  | 0, l, r => some (l ++ r)
-  | _ + 1, [], r => some r
-  | _ + 1, l, [] => some l
+/-- Merge two sorted runs; fails when a pair has no order: values of unrelated types are the `ord` error
+    (InvalidOp), an unordered pair (NaN) is a Value error. Fuel = total length. -/
+def mergeRuns : Nat → List Val → List Val → Except ErrKind (List Val)
+  | 0, l, r => .ok (l ++ r)
+  | _ + 1, [], r => .ok r
+  | _ + 1, l, [] => .ok l
   | n + 1, a :: as, b :: bs =>
     match ord a b with
-    | .ok (some .gt) => (mergeRuns n (a :: as) bs).map (b :: ·)
-    | .ok (some _) => (mergeRuns n as (b :: bs)).map (a :: ·)
-    | _ => none
+    | .ok (some .gt) => (match mergeRuns n (a :: as) bs with | .ok t => .ok (b :: t) | .error k => .error k)
+    | .ok (some _) => (match mergeRuns n as (b :: bs) with | .ok t => .ok (a :: t) | .error k => .error k)
+    | .ok none => .error .value
+    | .err => .error .invalidOp
 
-def mergeSortFuel : Nat → List Val → Option (List Val)
-  | 0, l => some l
+def mergeSortFuel : Nat → List Val → Except ErrKind (List Val)
+  | 0, l => .ok l
   | n + 1, l =>
-    if l.length ≤ 1 then some l
+    if l.length ≤ 1 then .ok l
     else
       let k := l.length / 2
-      match mergeSortFuel n (l.take k), mergeSortFuel n (l.drop k) with
-      | some a, some b => mergeRuns (a.length + b.length) a b
-      | _, _ => none
+      match mergeSortFuel n (l.take k) with
+      | .error e => .error e
+      | .ok a =>
+        match mergeSortFuel n (l.drop k) with
+        | .error e => .error e
+        | .ok b => mergeRuns (a.length + b.length) a b
 
 /-- `sort`. -/
 def sortList (l : List Val) : Val :=
   match mergeSortFuel l.length l with
-  | some r => .list r
-  | none => .err .value
+  | .ok r => .list r
+  | .error k => .err k
 
 /-- `min(args)`: keep the first least argument (`lt` must be literally true to replace). -/
 def minOf : List Val → Val
